@@ -58,9 +58,16 @@ pub fn dead_code_elimination(function: &il::Function) -> Result<il::Function, Er
                         function,
                         il::RefFunctionLocation::Instruction(block, instruction),
                     );
-                    rd[&rpl.into()].locations().iter().for_each(|location| {
-                        live.insert(location.function_location().clone());
-                    });
+                    // Everything that reaches this instruction before it
+                    // executes is live. The reaching definitions of the
+                    // instruction itself no longer hold what it overwrites.
+                    for predecessor in rpl.backward()? {
+                        if let Some(reaching) = rd.get(&predecessor.into()) {
+                            reaching.locations().iter().for_each(|location| {
+                                live.insert(location.function_location().clone());
+                            });
+                        }
+                    }
                 }
                 _ => {}
             }
